@@ -219,6 +219,9 @@ def run(gen, gen_path, externs, extra_flags=(), timeout=1500, verify_fn=None, ex
             f.finding = info.get('finding')
             f.desc = info.get('desc')
         kt = getattr(gen, 'kind_tags', {}) if not (fnk and fnk.startswith('inserted:') and fnk[9:] in gen.inserted) else {}
+        for fi in gen.functions:
+            if fnk and ('%s:%s' % (fi['file'], fi['path'])) == fnk.split('#')[0] and fi.get('explicit_tags'):
+                kt = {}   # a function with explicit tags keeps them for unmarked failures
         if kind in kt:
             tg = set(kt[kind].split())
         f.tags = tg
